@@ -88,6 +88,15 @@ def control_scripts(it):
                       ('br_table', {'labels': [1, 0], 'default': 1}), 'end', 'end'),
         'select': S(c('i32', 1), c('i32', 2), c('i32', 0), 'select'),
         'unreachable': S('unreachable'),
+        # conditional branches that carry a value from a deeper slot: the move and the jump are both conditional
+        'brif_carry': S(('block', {'imm0': V['i32']}), c('i64', 1), c('i32', 7), c('i32', 0), ('br_if', {'imm0': 0}), 'drop', 'drop', c('i32', 1), 'end'),
+        'brif_carry_i64': S(('block', {'imm0': V['i64']}), c('i32', 1), c('i64', 7), c('i32', 0), ('br_if', {'imm0': 0}), 'drop', 'drop', c('i64', 1), 'end'),
+        'brtable_carry': S(('block', {'imm0': V['i32']}), c('i64', 1), c('i32', 7), c('i32', 0), ('br_table', {'labels': [0, 0], 'default': 0}), 'end'),
+        'if_br_carry': S(('block', {'imm0': V['i64']}), c('i32', 1), c('i32', 1), ('if', {'imm0': oracle.BLOCKTYPE_VOID}), c('i64', 9), ('br', {'imm0': 1}), 'end',
+                         'drop', c('i64', 2), 'end'),
+        'nested_loop': S(('block', {'imm0': oracle.BLOCKTYPE_VOID}), ('loop', {'imm0': oracle.BLOCKTYPE_VOID}), c('i32', 1), ('br_if', {'imm0': 1}), c('i32', 0),
+                         ('br_if', {'imm0': 0}), 'end', 'end'),
+        'return_carry': S(c('i64', 1), c('i32', 2), 'return'),
     }
     out = []
     for name, toks in scripts.items():
